@@ -118,8 +118,7 @@ def check_tanks(s, r, viol, counts):
             if i + 1 < len(r.times):
                 dt = r.times[i + 1] - t
                 if not (lo <= L[i] <= hi and lo <= L[i + 1] <= hi):
-                    counts["outside_curve_range"] = counts.get("outside_curve_range", 0) + 1
-                    continue
+                    counts["outside_curve_range"] = counts.get("outside_curve_range", 0) + 1     # judged with the end segments extended linearly
                 v1, _ = vol_and_area(tk, float(L[i + 1]))
                 counts["integration_checks"] = counts.get("integration_checks", 0) + 1
                 if abs((v1 - v) - Dm[i] * dt) > 1e-7 + 1e-9 * abs(v):
